@@ -2,7 +2,7 @@
 # apply each behaviour-preserving refactoring of notes/benign to /repo in turn and run all twenty quick checks:
 # any VIOLATION is a false alarm to analyse (B07 is used without its build_graph rewrite, see DESIGN 12.5)
 cd /verif
-for f in notes/benign/B01.diff notes/benign/B02.diff notes/benign/B03.diff notes/benign/B04.diff notes/benign/B05.diff notes/benign/B06.diff notes/benign/B07_noinput.diff notes/benign/B08.diff notes/benign/B09.diff notes/benign/B10.diff; do
+for f in notes/benign/B01.diff notes/benign/B02.diff notes/benign/B03.diff notes/benign/B04.diff notes/benign/B05.diff notes/benign/B06.diff notes/benign/B07_noinput.diff notes/benign/B08.diff notes/benign/B09.diff notes/benign/B10.diff notes/benign/B11.diff notes/benign/B12.diff notes/benign/B13.diff notes/benign/B14.diff notes/benign/B15.diff notes/benign/B16.diff notes/benign/B17.diff notes/benign/B18.diff notes/benign/B19.diff notes/benign/B20.diff; do
   echo "== $f"
   python3 pylib/seedtest.py $f 2>&1 | tail -1
 done
